@@ -281,9 +281,11 @@ func scanComplete(fn *ssa.Function, field *types.Var) (bool, string) {
 	exitOK := false
 	for k, s := range hb.Succs {
 		f := mkFact(iff.Cond, k == 0)
+		if reachesBlock(s, hb) {
+			continue // the edge into the body
+		}
 		if cmpFact(f, token.EQL, isPhi, isLen) || cmpFact(f, token.GEQ, isPhi, isLen) {
 			exitOK = true
-			_ = s
 		}
 	}
 	if !exitOK {
@@ -334,6 +336,57 @@ func c05R2(c *Ctx) {
 	c.floor("C05.R2", 6)
 	c.analysed(fnName(add))
 	c.analysed(fnName(rem))
+	// the count map is (re)allocated only where it is nil: anywhere else it wipes every count
+	c.floor("C05.R2c", 2)
+	for _, fn := range methodsOf(p, clPkg, "State") {
+		fsx := computeFacts(fn)
+		allInstrs(fn, func(i ssa.Instruction) {
+			st, ok := i.(*ssa.Store)
+			if !ok {
+				return
+			}
+			if _, ok := addrOfField(st.Addr, endpoints); !ok {
+				return
+			}
+			if _, fresh := strip(st.Val).(*ssa.MakeMap); !fresh {
+				return
+			}
+			isNil := anyFact(fsx.At(st.Block()), func(f Fact) bool {
+				return cmpFact(f, token.EQL, func(v ssa.Value) bool { _, ok := loadedField(v, endpoints); return ok }, isNilConst)
+			})
+			c.check(isNil, "C05.R2c", fnName(fn)+"/allocates-counts-only-when-nil", st.Pos(), "Endpoints = make(...) only under Endpoints == nil",
+				"the endpoint count map is replaced by an empty one although it may hold counts (guard missing or inverted): every advertised count is reset; facts "+factStrings(fsx.At(st.Block())))
+		})
+	}
+	// subscribers are recorded where they register
+	for _, sp := range []struct{ fn, field string }{{"State.OnLocalEndpointUpdate", "localEndpointSubscribers"}, {"State.OnRemoteEndpointUpdate", "remoteEndpointSubscribers"}} {
+		fn, fv := p.Func(clPkg, sp.fn), p.Field(clPkg, "State", sp.field)
+		if fn == nil || fv == nil {
+			c.fail("C05.anchor", sp.fn, token.NoPos, "not found")
+			continue
+		}
+		isReg := func(i ssa.Instruction) bool {
+			st, ok := i.(*ssa.Store)
+			if !ok {
+				return false
+			}
+			if _, ok := addrOfField(st.Addr, fv); !ok {
+				return false
+			}
+			ap, ok := strip(st.Val).(*ssa.Call)
+			if !ok {
+				return false
+			}
+			b, ok := ap.Call.Value.(*ssa.Builtin)
+			if !ok || b.Name() != "append" {
+				return false
+			}
+			_, ok = loadedField(ap.Call.Args[0], fv)
+			return ok
+		}
+		end := everyPathFrom(fn.Blocks[0].Instrs[0], isReg, nil, true)
+		c.check(end == nil, "C05.R2c", fnName(fn)+"/records-subscriber", fn.Pos(), sp.field+" = append("+sp.field+", f) on every path", "a registering subscriber is not recorded: endpoint changes are never published to it")
+	}
 	isParam := func(fn *ssa.Function, v ssa.Value) bool {
 		pv, ok := strip(v).(*ssa.Parameter)
 		return ok && len(fn.Params) >= 2 && pv == fn.Params[1]
